@@ -452,6 +452,60 @@ func c15Population(c *Ctx, r *rand.Rand, genomes []*genetics.Genome, snaps []*Sn
 		c.Violate("population-differs", detail(), "species of the population read back list %d organisms of %d", cnt, n)
 		return false
 	}
+	// the other writer: species by species (what the examples store after a run), with a winner among the organisms now and then
+	byId := map[int]*SnapGenome{}
+	for i := 0; i < n; i++ {
+		byId[snaps[i].Id] = snaps[i]
+	}
+	if len(byId) == n {
+		winner := r.Intn(2) == 0
+		if winner {
+			pop.Organisms[r.Intn(n)].IsWinner = true
+			c.Count("roundtrip.population_by_species_with_winner", 1)
+		}
+		var buf2 bytes.Buffer
+		if err = pop.WriteBySpecies(&buf2); err != nil {
+			c.Violate("population-error", nil, "Population.WriteBySpecies failed: %v", err)
+			return false
+		}
+		text2 := buf2.String()
+		var back2 *genetics.Population
+		func() {
+			defer func() {
+				if p := recover(); p != nil {
+					err = fmt.Errorf("panic: %v", p)
+				}
+			}()
+			back2, err = genetics.ReadPopulation(&buf2, o)
+		}()
+		c.Eval(1)
+		c.Count("roundtrip.population_by_species", 1)
+		d2 := func() map[string]interface{} {
+			return map[string]interface{}{"genomes": n, "winner_marked": winner, "text_head": truncate(text2, 3000)}
+		}
+		if err != nil {
+			c.Violate("population-error", d2(), "ReadPopulation failed on what Population.WriteBySpecies wrote: %v", err)
+			return false
+		}
+		if len(back2.Organisms) != n {
+			c.Violate("population-differs", d2(), "population of %d genomes written species by species read back with %d organisms", n, len(back2.Organisms))
+			return false
+		}
+		for _, org := range back2.Organisms {
+			sb := snapGenome(org.Genotype)
+			want, ok := byId[sb.Id]
+			if !ok {
+				c.Violate("population-differs", d2(), "the population written species by species reads back a genome with id %d, which was not written", sb.Id)
+				return false
+			}
+			if d := diffGenomes(want, sb); d != "" {
+				dd := d2()
+				dd["genome"], dd["read_back"] = want, sb
+				c.Violate("population-differs", dd, "genome %d of the population written species by species reads back differently: %s", sb.Id, d)
+				return false
+			}
+		}
+	}
 	return true
 }
 
